@@ -79,9 +79,9 @@ func stripSuggestion(e string) string {
 func runC18(c *core.Ctx) {
 	const thm = "C18_* (props/C18.v); model op val with explicit rule lists"
 	c.ReplayKnown()
-	nSchemas, per, nSubsets := 12, 10, 6
+	nSchemas, per, nSubsets := 40, 12, 8
 	if !c.Quick {
-		nSchemas, per, nSubsets = 120, 30, 40
+		nSchemas, per, nSubsets = 400, 30, 40
 	}
 	cases := GenValidationCases(c, nSchemas, per, nil)
 	all := append(append([]string{}, DefaultRuleNames...), NoSuggestRuleNames...)
